@@ -13,7 +13,7 @@ from . import common
 from . import c02_tree as T
 
 PROPERTY = 'C02'
-LEAN_TARGETS = ['CpProofs.C02', 'drv_c02']
+LEAN_TARGETS = ['CpProofs.C02', 'CpProofs.C02Fn', 'drv_c02']
 DRIVER = 'drv_c02'
 THEOREMS = [
     'CpProofs.C02.C02_exposed_only',
@@ -32,6 +32,22 @@ THEOREMS = [
     'CpProofs.C02.C02_translated_identifier_safe',
     'CpProofs.C02.walk_no_outOfFuel',
     'CpProofs.C02.C02_no_params_without_dispatch',
+    # `_cp_dispatch` as an arbitrary function (CpModel.DispatchFn)
+    'CpProofs.C02Fn.findHandler_refines',
+    'CpProofs.C02Fn.dispatch_refines',
+    'CpProofs.C02Fn.methodDispatch_refines',
+    'CpProofs.C02Fn.paramsOf_refines',
+    'CpProofs.C02Fn.C02F_exposed_only',
+    'CpProofs.C02Fn.C02F_most_specific',
+    'CpProofs.C02Fn.C02F_not_found_iff',
+    'CpProofs.C02Fn.C02F_trail_chain',
+    'CpProofs.C02Fn.C02F_vpath_is_rest',
+    'CpProofs.C02Fn.C02F_args',
+    'CpProofs.C02Fn.C02F_vpath_is_rest_not_full',
+    'CpProofs.C02Fn.semOf_wf',
+    'CpProofs.C02Fn.C02_args_final_vpath',
+    'CpProofs.C02Fn.C02_popargs_binds_popped',
+    'CpProofs.C02Fn.C02_popargs_probe',
 ]
 LEVEL = 'proof'
 TECHNIQUE = ('Lean 4 proof: the transcription of Dispatcher.find_handler is proved equal to a declarative longest-prefix / '
@@ -112,7 +128,97 @@ def dispatchMethodName : List Nat := [%s]
 
 end CpModel.Gen.C02
 ''' % (rows, name)
-    return {'CpModel/Gen/C02Tables.lean': src}
+    return {'CpModel/Gen/C02Tables.lean': src, 'CpModel/Gen/C02Popargs.lean': popargs_probe_table(cherrypy)}
+
+
+PROBE_NAMES = [[], ['a'], ['a', 'b'], ['a', 'b', 'c']]
+PROBE_VPATHS = [['w', 'x', 'y', 'z'], ['e'], [], ['kid', 'q'], ['f', 'kid'], ['u', 'v', 'kid', 't'], ['x%2Fy', 'kid']]
+
+
+def popargs_probe(cherrypy):
+    """Call what `cherrypy.popargs(*names[, handler=…])` returns the way the dispatcher does, several times in a
+    row on ONE decorated object (longer list first: a dict kept between calls shows up as stale bindings), and
+    record for every call: list before, list after, `request.params` after (empty before), keyword arguments a
+    handler function received, which object came back."""
+    req = cherrypy.serving.request
+    had = 'params' in vars(req)
+    old = vars(req).get('params')
+    rows = []
+    try:
+        for names in PROBE_NAMES:
+            for kind in (0, 1, 2):
+                kid, hobj, res = object(), type('H', (), {})(), object()
+                got = []
+
+                def hfn(**kw):
+                    got.append(dict(kw))
+                    return res
+                if kind == 0:
+                    f = cherrypy.popargs(*names)
+                elif kind == 1:
+                    f = cherrypy.popargs(*names, handler=hobj)
+                else:
+                    f = cherrypy.popargs(*names, handler=hfn)
+                if kind == 0 and len(names) % 2 == 1:
+                    # class-decorator form
+                    cls = f(type('P', (), {'kid': kid}))
+                    slf = cls()
+                    call = lambda vp: slf._cp_dispatch(vpath=vp)
+                else:
+                    cls = type('P', (), {'kid': kid, '_cp_dispatch': f})
+                    slf = cls()
+                    call = lambda vp: slf._cp_dispatch(vpath=vp)
+                calls = []
+                for vp0 in PROBE_VPATHS:
+                    vp = list(vp0)
+                    req.params = {}
+                    del got[:]
+                    r = call(vp)
+                    ret = 0 if r is slf else 1 if (r is hobj or r is res) else 2 if r is kid else 3 if r is None else 9
+                    calls.append((list(vp0), list(vp), list(req.params.items()),
+                                  list(got[0].items()) if got else [], ret))
+                rows.append((names, kind, calls))
+    finally:
+        if had:
+            req.params = old
+        else:
+            vars(req).pop('params', None)
+    return rows
+
+
+def popargs_probe_table(cherrypy):
+    def nm(s):
+        return '[%s]' % ', '.join(str(ord(c)) for c in s)
+
+    def nms(l):
+        return '[%s]' % ', '.join(nm(x) for x in l)
+
+    def kvs(l):
+        for k, v in l:
+            if not isinstance(k, str) or not isinstance(v, str):
+                raise common.HarnessError('popargs bound a non-string: %r' % ((k, v),))
+        return '[%s]' % ', '.join('(%s, %s)' % (nm(k), nm(v)) for k, v in l)
+    rows = []
+    for names, kind, calls in popargs_probe(cherrypy):
+        cs = ',\n      '.join('(%s, %s, %s, %s, %d)' % (nms(b), nms(a), kvs(rp), kvs(hk), ret)
+                               for b, a, rp, hk, ret in calls)
+        rows.append('(%s, %d, [\n      %s])' % (nms(names), kind, cs))
+    return '''/-
+  GENERATED by harness/c02.py `tables()`: what the functions returned by the live `cherrypy.popargs` did when
+  called like `Dispatcher.find_handler` calls a `_cp_dispatch` (`dispatch(vpath=list)`), several times in a row
+  on one decorated object.  Do not edit by hand.
+  row  = (argument names, handler kind: 0 none / 1 object / 2 function, calls)
+  call = (list before, list after, request.params after (empty before), kwargs the handler function got,
+          returned: 0 self / 1 the handler object or the function's result / 2 self.kid / 3 None)
+-/
+namespace CpModel.Gen.C02
+
+def popargsProbe : List (List (List Nat) × Nat ×
+    List (List (List Nat) × List (List Nat) × List (List Nat × List Nat) × List (List Nat × List Nat) × Nat)) :=
+  [%s]
+
+end CpModel.Gen.C02
+''' % ',\n   '.join(rows)
 
 
 # ----------------------------------------------------------------------------------------------
@@ -568,6 +674,8 @@ def model_expectation(line, view, kind):
         if r.startswith('A='):
             v = r[2:]
             exp['allow'] = None if v == 'N' else ('' if v == '_' else ', '.join(T.dec_text(a) for a in v.split(',')))
+        elif r.startswith('V='):
+            exp['rest'] = r[2:]
         elif r.startswith('P='):
             kw = {}
             if r[2:] != '_':
@@ -805,13 +913,46 @@ def run_tree(spec, kind, reqs, purity=False, instrument=True):
     if has_mut(spec):
         # names a rewriting dispatcher can put into the list
         added += ['a', 'b'] + [s.lower() for p in seen for s in p.split('/') if s]
-    view = T.View(built, T.alphabet_for(seen, [r[1] for r in reqs], extra=added), maxsegs + 4)
+    rets = [e['ret'] for o in obs for e in (o.get('disp_log') or [])]
+    view = T.View(built, T.alphabet_for(seen, [r[1] for r in reqs], extra=added), maxsegs + 4, extra_roots=rets)
     root, na, nodes = view.fields()
+    nodes_f = view.fields(nodisp=True)[2] if instrument else None
     lines = []
     for o, (p, m, q, b) in zip(obs, reqs):
         pi = o['path_info'] if o['path_info'] is not None else p
         lines.append(' '.join([kind, T.enc_text(m.upper()), root, na, nodes, '-', T.enc_text(pi)]))
+        if instrument and o.get('disp_log'):
+            # the same request for `find_handler` over the table of the dispatcher calls that were seen
+            o['fline'] = ' '.join(['F', kind, T.enc_text(m.upper()), root, na, nodes_f, '-', T.enc_text(pi),
+                                   disp_table(view, o['disp_log'])])
     return built, view, obs, lines, again
+
+
+def _enc_names(l):
+    return '+'.join(T.enc_text(x) for x in l) or '-'
+
+
+def disp_table(view, log):
+    """The recorded `_cp_dispatch` calls of one request as the driver's table (dispatcher object, list before)
+    -> (returned object, list after, request.params updates) | raised."""
+    out = []
+    for e in log:
+        key = ('m', id(e['self']), id(e['fn'])) if e['self'] is not None else ('o', id(e['fn']))
+        did = view.ids.get(key)
+        if did is None:
+            continue
+        if e['raised']:
+            out.append('%d|%s|R|-|-' % (did, _enc_names(e['before'])))
+            continue
+        rid = 'N' if e['ret'] is None else view.ids.get(T.View.key(e['ret']))
+        if rid is None:
+            continue
+        ps = e.get('params')
+        if ps is None or any(not isinstance(k, str) or not isinstance(v, str) for k, v in ps):
+            continue
+        out.append('%d|%s|%s|%s|%s' % (did, _enc_names(e['before']), rid, _enc_names(e['after']),
+                                       ','.join('%s~%s' % (T.enc_text(k), T.enc_text(v)) for k, v in ps) or '-'))
+    return ';'.join(out) or '-'
 
 
 def strip_obs(o):
@@ -887,15 +1028,24 @@ def check_batch(ctx, batch, compare_model=True):
                                % (strip_obs(o), strip_obs(again[k])), 'not_pure', shrink_case,
                                reqs + reqs[k + 1:][::-1])
             if not mut:
-                pending.append((case, view, kind, strip_obs(o), lines[k]))
+                pending.append((case, view, kind, strip_obs(o), lines[k], False))
+            if o.get('fline'):
+                pending.append((case, view, kind, strip_obs(o), o['fline'], True))
     if not compare_model:
         return
     out = ctx.model([p[4] for p in pending])
     if out is None:
         return
-    for (case, view, kind, o, line), mline in zip(pending, out):
+    for (case, view, kind, o, line, table_form), mline in zip(pending, out):
         ctx.compared()
-        if 'unknownDispatch' in mline or 'outOfFuel' in mline:
+        if table_form:
+            ctx.count('compared_table_form')
+            if mline == 'bad-op':
+                raise common.HarnessError('driver rejected the table-form line for %s' % json.dumps(case)[:400])
+            if 'outOfFuel' in mline:
+                raise common.HarnessError('model artefact %s for case %s' % (mline, json.dumps(case)[:400]))
+            # `unknownDispatch` here = the model asked a dispatcher the real walk did not ask: a disagreement
+        elif 'unknownDispatch' in mline or 'outOfFuel' in mline:
             raise common.HarnessError('model artefact %s for case %s' % (mline, json.dumps(case)[:400]))
         exp = model_expectation(mline, view, kind)
         if 'kwargs' in exp:
@@ -907,7 +1057,9 @@ def check_batch(ctx, batch, compare_model=True):
             ctx.count('model:' + mline.split(' ')[0])
         diffs = compare(exp, o, kind)
         if diffs:
-            ctx.disagree(case, o, {'model_line': mline, 'expected': exp},
+            ctx.disagree(case, o, {'model_line': mline, 'expected': exp,
+                                   'model': 'DispatchFn over the recorded dispatcher calls' if table_form
+                                   else 'Dispatch (dispatcher descriptors)'},
                          'dispatch observables differ in %s' % diffs)
 
 
